@@ -108,6 +108,10 @@ def solve_milp(
     if root_result.status == LPStatus.UNBOUNDED:
         return Result(None, float("-inf") if minimize else float("inf"), 0, total_iters, Status.UNBOUNDED)
 
+    if root_result.status == LPStatus.MAX_ITER:
+        # the root LP ran out of pivots: its point is neither a bound nor known to be feasible
+        return Result(None, float("inf") if minimize else float("-inf"), 0, total_iters, Status.MAX_ITER)
+
     best_solution, best_obj = None, float("inf") if minimize else float("-inf")
     sign = 1 if minimize else -1
     all_solutions: list[tuple[float, ...]] = []
@@ -162,6 +166,7 @@ def solve_milp(
     heappush(tree, (root_bound, counter, Node(root_bound, tuple(lower), tuple(upper), 0)))
     counter += 1
     nodes_explored = 0
+    lp_unfinished = False
 
     while tree and nodes_explored < max_nodes:
         node_bound, _, node = heappop(tree)
@@ -173,6 +178,10 @@ def solve_milp(
         result = _solve_node(c, A, b, node.lower, node.upper, minimize, eps, max_iter)
         total_iters += result.iterations
         nodes_explored += 1
+
+        if result.status == LPStatus.MAX_ITER:
+            lp_unfinished = True  # this subtree was neither solved nor refuted: no proof can be claimed any more
+            continue
 
         if result.status != LPStatus.OPTIMAL:
             continue
@@ -203,7 +212,7 @@ def solve_milp(
             if sign * sol_obj < sign * best_obj:
                 best_solution, best_obj = sol, sol_obj
                 gap = _compute_gap(best_obj, node_bound / sign if node_bound != 0 else 0)
-                if gap < gap_tol and solution_limit == 1:
+                if gap < gap_tol and solution_limit == 1 and not lp_unfinished:
                     return Result(best_solution, best_obj, nodes_explored, total_iters)
 
             continue
@@ -225,10 +234,10 @@ def solve_milp(
 
     if best_solution is None:
         # Open nodes left means the node budget ran out: nothing was proven about feasibility
-        status = Status.MAX_ITER if tree else Status.INFEASIBLE
+        status = Status.MAX_ITER if tree or lp_unfinished else Status.INFEASIBLE
         return Result(None, float("inf") if minimize else float("-inf"), nodes_explored, total_iters, status)
 
-    status = Status.OPTIMAL if not tree else Status.FEASIBLE
+    status = Status.OPTIMAL if not tree and not lp_unfinished else Status.FEASIBLE
     if solution_limit > 1 and all_solutions:
         return Result(best_solution, best_obj, nodes_explored, total_iters, status, solutions=tuple(all_solutions))
     return Result(best_solution, best_obj, nodes_explored, total_iters, status)
